@@ -306,6 +306,9 @@ buildexe(struct input *inputs, size_t ninputs, char *output)
 	if (!flags.nostdlib && startfiles[0])
 		arrayaddbuf(&s->cmd, startfiles, sizeof(startfiles));
 	for (i = 0; i < ninputs; ++i) {
+		/* an input that was not built (a header, for instance) still has stages left and is not linked */
+		if (inputs[i].stages && inputs[i].filetype != OBJ)
+			continue;
 		if (inputs[i].lib)
 			arrayaddptr(&s->cmd, "-l");
 		arrayaddptr(&s->cmd, inputs[i].name);
@@ -320,7 +323,8 @@ buildexe(struct input *inputs, size_t ninputs, char *output)
 	else if (waitpid(pid, &status, 0) < 0)
 		fatal("waitpid %ju:", (uintmax_t)pid);
 	for (i = 0; i < ninputs; ++i) {
-		if (inputs[i].filetype != OBJ)
+		/* only the temporary objects: never an input that was not built */
+		if (inputs[i].filetype != OBJ && !inputs[i].stages)
 			unlink(inputs[i].name);
 	}
 	exit(ret || !succeeded(s->name, pid, status));
